@@ -281,6 +281,48 @@ def gthread_second(cl: int, n1: int, n2: int, nwait: int) -> bool:
     return all(b is True or b == 1 for b in c.blocking_at_send)
 
 
+def app_error(kind: int, stage: int, v11: bool, wk: int) -> bool:
+    """
+    pre: 0 <= kind <= 2 and 0 <= stage <= 2 and 0 <= wk <= 2
+    post: __return__
+    """
+    # an application that fails part-way is not "well-behaved", but what the server puts on the wire must still be at most
+    # ONE response: once a response head has gone out nothing but (part of) its body may follow before the close
+    import errno as _errno
+    kind, stage, wk = pick(kind, 0, 2), pick(stage, 0, 2), pick(wk, 0, 2)
+    exc = [OSError(_errno.ENOENT, "no such file"), ValueError("boom"), OSError(_errno.EPIPE, "pipe")][kind]
+
+    def app(environ, start_response):
+        if stage == 0:
+            raise exc
+        start_response("200 OK", [("Content-Length", "4")])
+        if stage == 1:
+            raise exc
+
+        def gen():
+            yield b"ab"
+            raise exc
+        return gen()
+    kindname = ["sync", "gthread", "async"][wk]
+    cfg = W.make_cfg(keepalive=2)
+    w = {"sync": W.sync_worker, "gthread": W.thread_worker, "async": W.async_worker}[kindname](cfg, app)
+    reqline = "GET /p HTTP/" + ("1.1" if v11 else "1.0") + "\r\nHost: h\r\n\r\n"
+    c = RecSock([reqline.encode()])
+    if kindname == "gthread":
+        W.gthread_serve(w, c)
+    else:
+        W.run_connection(kindname, w, c)
+    raw = c.wire()
+    if raw.count(b"HTTP/1.") > 1:
+        return False                              # a second status line after the first response head
+    if c.closed < 1:
+        return False
+    if stage == 2:
+        # the 200 head went out with the first piece; only that may be on the wire
+        return raw.startswith(b"HTTP/1.") and raw.endswith(b"ab") and b" 200 " in raw[:16]
+    return True
+
+
 def conn_value_ok(v):
     for ch in v:
         c = ord(ch)
@@ -365,6 +407,9 @@ OBLIGATIONS = [
     Ob("C02.keepalive.twin", "keepalive_twin", cases=[{"kind": "gthread", "keepalive": 2, "v11": True},
                                                       {"kind": "async", "keepalive": 2, "v11": True}],
        expect="refute", timeout=300),
+    Ob("C02.app_error", "app_error", timeout=600,
+       bound="application raising OSError(ENOENT) / ValueError / OSError(EPIPE) before start_response, after it, or after the first "
+             "body piece; sync, gthread and async-base workers; HTTP/1.0 and 1.1"),
     Ob("C02.gthread_second", "gthread_second", timeout=600,
        bound="two requests on one kept-alive gthread connection, the second arriving in two segments (with / without an EAGAIN in "
              "between), Content-Length absent / 0..2, two body pieces of 0..2 bytes"),
